@@ -23,12 +23,28 @@
 (* between any two handles; finite budgets bound them in the exhaustive    *)
 (* configurations (Unbounded = 99 switches a budget off).                  *)
 (*                                                                         *)
+(* What the client knows about a user comes from the server and only while *)
+(* the client has the user watched (AddUser ... RemoveUser): `truth` is    *)
+(* the server's view, `watch` what manage_user_tracking (504-523) has      *)
+(* asked for, `status` what the client's User object says (it is dropped   *)
+(* with the tracking entry: the user store is weak), `told` what the       *)
+(* statement of C05 goes by: the last status the server told the client,   *)
+(* forgotten only when the client stops watching a user that has no        *)
+(* unfinished upload.                                                      *)
+(*                                                                         *)
+(* `tail[u]`: the task that ran upload u is still busy after the state     *)
+(* change that ended the attempt (_upload_file tells the peer              *)
+(* PeerUploadFailed after fail()).  manage_transfers never starts a second *)
+(* task while one is in flight (573-575), so a cycle skips such an upload. *)
+(*                                                                         *)
 (* Where the code deviates from C05 the deviation is a CONSTANT switch:    *)
-(* SlotsChangeNotifies = FALSE is the code (assigning the limit requests   *)
-(* no cycle): EventuallyStarted fails (MC_live_code.cfg), finding          *)
-(* C05:set-upload-slots:raised-limit-not-applied.  TRUE is the repaired    *)
-(* design (MC_live.cfg).  The other switches only serve to show that each  *)
-(* property has teeth (MC_teeth_*.cfg).                                    *)
+(* TaskEndNotifies = FALSE is the code (nothing requests a cycle when a    *)
+(* task ends): an upload re-queued while its old task was in flight is     *)
+(* skipped and then forgotten, EventuallyStarted fails (MC_live_code.cfg), *)
+(* finding C05:...:task-in-flight.  TRUE is the repaired design            *)
+(* (MC_live.cfg).  SlotsChangeNotifies = TRUE since fix fbca5b4 (the 1 s   *)
+(* poll of the limit).  The other switches only serve to show that each    *)
+(* property has teeth (MC_teeth_*.cfg, MC_live_*.cfg).                     *)
 (***************************************************************************)
 EXTENDS Naturals, Sequences, FiniteSets, TLC
 
@@ -37,7 +53,8 @@ CONSTANTS
   PerUser,              \* upload u belongs to user ((u - 1) \div PerUser) + 1
   MaxSlots,             \* limits range over 0..MaxSlots
   InitSlots,            \* set of initial limits
-  AnyInitAttr,          \* TRUE: any initial status/friend/privilege; FALSE: all unknown / not friend / not privileged
+  AnyInitAttr,          \* TRUE: any initial server status/friend/privilege; FALSE: status from InitTruth / not friend / not privileged
+  InitTruth,            \* statuses a user may have on the server initially when AnyInitAttr = FALSE
   Statuses,             \* subset of {"unknown", "offline", "away", "online"} containing "unknown"
   SlotBudget,           \* how many limit changes the environment makes   (Unbounded = no bound)
   AttrBudget,           \* how many status / friend / privilege changes
@@ -50,7 +67,10 @@ CONSTANTS
   UseOfflineFilter,     \* TRUE = uploads of OFFLINE users are skipped
   WStatus, WFriend, WPriv,   \* rank weights of _prioritize_uploads (1, 5, 100)
   StateChangeNotifies,  \* TRUE = on_transfer_state_changed requests a management cycle
-  SlotsChangeNotifies   \* FALSE = code: assigning settings.transfers.limits.upload_slots requests nothing
+  SlotsChangeNotifies,  \* TRUE = a changed settings.transfers.limits.upload_slots leads to a cycle (poll, fix fbca5b4)
+  TaskEndNotifies,      \* FALSE = code: the end of an initialize-upload task requests nothing
+  RequeueTail,          \* FALSE = code: a task that puts its upload back in the queue returns at once
+  TrackPerUser          \* TRUE = code: a user is watched as long as ANY of its transfers is unfinished
 
 Uploads == UploadIds
 Owner(u) == ((u - 1) \div PerUser) + 1
@@ -72,11 +92,17 @@ VARIABLES
   mpc,        \* management task: "waiting" (in queue.get), "sleeping" (timer pending), "due" (timer fired, wake-up in ready)
   flags,      \* _management_flags
   grantLim,   \* the limit the last granting cycle saw, while its tasks are still waiting for their first step (else 0)
+  tail,       \* upload -> its previous task is still in flight (after the state change that ended the attempt)
+  truth,      \* user -> status on the server ("unknown": no such user)
+  watch,      \* user -> "no" | "asked" (AddUser sent) | "yes" (answered): what the client has the server watch
+  told,       \* user -> last status the server told the client, forgotten only with good reason (see Forget)
   slotLeft, attrLeft, lifeLeft
 
 attrs == <<slots, status, friend, priv>>
+know == <<truth, watch, told>>
 mgmt == <<mq, mpc, flags>>
-vars == <<slots, status, friend, priv, st, order, ready, mq, mpc, flags, grantLim, slotLeft, attrLeft, lifeLeft>>
+vars == <<slots, status, friend, priv, st, order, ready, mq, mpc, flags, grantLim, tail, truth, watch, told,
+          slotLeft, attrLeft, lifeLeft>>
 
 Max(a, b) == IF a >= b THEN a ELSE b
 Min(a, b) == IF a <= b THEN a ELSE b
@@ -87,11 +113,16 @@ NumTasks(r) == Cardinality({i \in DOMAIN r : r[i] # 0})
 taskFor == [u \in Uploads |-> TaskCount(ready, u) > 0]     \* an initialize-upload task exists, first step not yet run
 DropTask(r, u) == SelectSeq(r, LAMBDA h : h # u)
 
+\* friends are watched from the log-on on (UserManager.track_friends), the others not yet
 Init ==
   /\ slots \in InitSlots
   /\ IF AnyInitAttr
-       THEN /\ status \in [Users -> Statuses] /\ friend \in [Users -> BOOLEAN] /\ priv \in [Users -> BOOLEAN]
-       ELSE /\ status = [o \in Users |-> "unknown"] /\ friend = [o \in Users |-> FALSE] /\ priv = [o \in Users |-> FALSE]
+       THEN /\ truth \in [Users -> Statuses] /\ friend \in [Users -> BOOLEAN] /\ priv \in [Users -> BOOLEAN]
+       ELSE /\ truth \in [Users -> InitTruth] /\ friend = [o \in Users |-> FALSE] /\ priv = [o \in Users |-> FALSE]
+  /\ watch = [o \in Users |-> IF friend[o] THEN "yes" ELSE "no"]
+  /\ status = [o \in Users |-> IF friend[o] THEN truth[o] ELSE "unknown"]
+  /\ told = status
+  /\ tail = [u \in Uploads |-> FALSE]
   /\ st = [u \in Uploads |-> "NONE"]
   /\ order = <<>>
   /\ ready = <<>>
@@ -122,53 +153,92 @@ GrantLimAfter(r) == IF NumTasks(r) = 0 THEN 0 ELSE grantLim
 
 \* upload u goes to state s by something else than its own task's first step.  Leaving QUEUED this
 \* way is abort/pause (state.py: _cancel_transfer_tasks - a task that has not started never runs).
-Change(u, s) ==
+\* `tl` says what becomes of the in-flight marker: "keep", "set" (the task goes on after this change) or
+\* "clear" (abort / pause cancel the task and wait for it).
+Change(u, s, tl) ==
   LET r == DropTask(ready, u) IN
   /\ st' = [st EXCEPT ![u] = s]
   /\ order' = IF st[u] = "NONE" THEN Append(order, u) ELSE order
   /\ grantLim' = GrantLimAfter(r)
+  /\ tail' = IF tl = "keep" THEN tail ELSE [tail EXCEPT ![u] = (tl = "set")]
   /\ Notify(r)
-  /\ UNCHANGED attrs
+  /\ UNCHANGED <<attrs, know>>
 
 \* --- environment: peers and the user of the library ----------------------------------------------
 \* _on_peer_transfer_queue (1167-1237): a new upload is added and queued; a FAILED / COMPLETE one is re-queued
-QueueRequest(u) == st[u] \in {"NONE", "COMPLETE", "FAILED"} /\ Change(u, "QUEUED")
+QueueRequest(u) == st[u] \in {"NONE", "COMPLETE", "FAILED"} /\ Change(u, "QUEUED", "keep")
 \* TransferManager.queue on a paused / aborted upload
-Resume(u) == st[u] \in {"PAUSED", "ABORTED"} /\ Change(u, "QUEUED")
+Resume(u) == st[u] \in {"PAUSED", "ABORTED"} /\ Change(u, "QUEUED", "keep")
 \* PeerTransferReply(allowed), file connection, offset received -> _upload_file: start_transferring
-Negotiated(u) == st[u] = "INITIALIZING" /\ Change(u, "UPLOADING")
-Complete(u) == st[u] = "UPLOADING" /\ Change(u, "COMPLETE")
-\* reply not allowed (922-924) / write error while uploading (1027-1029)
-Fail(u) == st[u] \in Active /\ Change(u, "FAILED")
-\* request undeliverable, reply timeout, file connection failed, no offset (902-952)
-BackToQueue(u) == st[u] = "INITIALIZING" /\ Change(u, "QUEUED")
-Abort(u) == st[u] \in {"QUEUED", "INITIALIZING", "UPLOADING", "PAUSED"} /\ Change(u, "ABORTED")
-Pause(u) == st[u] \in {"QUEUED", "INITIALIZING", "UPLOADING"} /\ Change(u, "PAUSED")
+Negotiated(u) == st[u] = "INITIALIZING" /\ Change(u, "UPLOADING", "keep")
+Complete(u) == st[u] = "UPLOADING" /\ Change(u, "COMPLETE", "keep")
+\* reply not allowed (968-970): the task returns; write error while uploading (_upload_file): the task
+\* goes on to tell the peer PeerUploadFailed - over a connection it may first have to make
+Fail(u) == st[u] \in Active /\ Change(u, "FAILED", IF st[u] = "UPLOADING" THEN "set" ELSE "keep")
+\* request undeliverable, reply timeout, file connection failed, no offset (948-998): queue() and return
+BackToQueue(u) == st[u] = "INITIALIZING" /\ Change(u, "QUEUED", IF RequeueTail THEN "set" ELSE "keep")
+Abort(u) == st[u] \in {"QUEUED", "INITIALIZING", "UPLOADING", "PAUSED"} /\ Change(u, "ABORTED", "clear")
+Pause(u) == st[u] \in {"QUEUED", "INITIALIZING", "UPLOADING"} /\ Change(u, "PAUSED", "clear")
+
+\* the task that was still in flight ends (Transfer._transfer_task_complete only clears the slot)
+TailEnds(u) ==
+  /\ tail[u]
+  /\ tail' = [tail EXCEPT ![u] = FALSE]
+  /\ IF TaskEndNotifies THEN Req(ready) ELSE NoReq(ready)
+  /\ UNCHANGED <<attrs, know, st, order, grantLim>>
 
 SetSlots(n) ==
   /\ n \in 0..MaxSlots /\ n # slots
   /\ slots' = n
   /\ IF SlotsChangeNotifies THEN Req(ready) ELSE NoReq(ready)
-  /\ UNCHANGED <<status, friend, priv, st, order, grantLim>>
+  /\ UNCHANGED <<status, friend, priv, st, order, grantLim, tail, know>>
 
-\* AddUser / GetUserStatus responses (user/manager.py 375-399); the transfer manager requests a cycle (1156-1165)
+Unfinished(o) == \E u \in Uploads : Owner(u) = o /\ st[u] \in {"QUEUED", "INITIALIZING", "UPLOADING", "PAUSED"}
+HasTransfers(o) == \E u \in Uploads : Owner(u) = o /\ st[u] # "NONE"
+
+\* The client stops watching users `os` (RemoveUser): the tracking entry and with it the User object go,
+\* status falls back to UNKNOWN.  For C05 the word of the server stands unless the user has no unfinished
+\* upload left - only then is not knowing any more a good excuse.
+ToldAfterForget(os) == [o \in Users |-> IF o \in os /\ ~Unfinished(o) THEN "unknown" ELSE told[o]]
+
+\* the server changes its mind about a user; it tells the client (GetUserStatus) only if the user is watched
 StatusChange(o, s) ==
-  /\ s \in Statuses \ {"unknown"} /\ s # status[o]
-  /\ status' = [status EXCEPT ![o] = s]
-  /\ Req(ready)
-  /\ UNCHANGED <<slots, friend, priv, st, order, grantLim>>
+  /\ s \in Statuses \ {"unknown"} /\ s # truth[o]
+  /\ truth' = [truth EXCEPT ![o] = s]
+  /\ IF watch[o] = "yes"
+       THEN /\ status' = [status EXCEPT ![o] = s] /\ told' = [told EXCEPT ![o] = s]
+            /\ Req(ready)                               \* TransferManager._on_get_user_status
+       ELSE /\ UNCHANGED <<status, told>> /\ NoReq(ready)
+  /\ UNCHANGED <<slots, friend, priv, st, order, grantLim, tail, watch>>
 
-\* settings.users.friends is read at cycle time; nothing is requested by the change itself
+\* the AddUser response arrives (user/manager.py _on_add_user; transfer manager requests a cycle)
+Tracked(o) ==
+  /\ watch[o] = "asked"
+  /\ watch' = [watch EXCEPT ![o] = "yes"]
+  /\ status' = [status EXCEPT ![o] = truth[o]]
+  /\ told' = [told EXCEPT ![o] = truth[o]]
+  /\ Req(ready)
+  /\ UNCHANGED <<slots, friend, priv, st, order, grantLim, tail, truth>>
+
+\* settings.users.friends is read at cycle time; the user manager (un)watches the friend within a second
 FriendChange(o) ==
   /\ friend' = [friend EXCEPT ![o] = ~friend[o]]
+  /\ IF ~friend[o]
+       THEN /\ watch' = [watch EXCEPT ![o] = IF @ = "no" THEN "asked" ELSE @]
+            /\ UNCHANGED <<status, told>>
+       ELSE IF Unfinished(o)
+         THEN UNCHANGED <<watch, status, told>>
+         ELSE /\ watch' = [watch EXCEPT ![o] = "no"]
+              /\ status' = [status EXCEPT ![o] = "unknown"]
+              /\ told' = ToldAfterForget({o})
   /\ NoReq(ready)
-  /\ UNCHANGED <<slots, status, priv, st, order, grantLim>>
+  /\ UNCHANGED <<slots, priv, st, order, grantLim, tail, truth>>
 
-\* AddPrivilegedUser / PrivilegedUsers / GetUserStatus.privileged; the first two request nothing
+\* PrivilegedUsers (kept by name in the user manager); requests nothing
 PrivChange(o) ==
   /\ priv' = [priv EXCEPT ![o] = ~priv[o]]
   /\ NoReq(ready)
-  /\ UNCHANGED <<slots, status, friend, st, order, grantLim>>
+  /\ UNCHANGED <<slots, status, friend, st, order, grantLim, tail, know>>
 
 ----------------------------------------------------------------------------
 \* --- the management cycle: _get_queued_transfers + _prioritize_uploads + manage_transfers ---------
@@ -204,7 +274,19 @@ Prioritized ==
 FreeSlots == LET used == Cardinality({u \in Uploads : st[u] \in Counted})
              IN IF slots > used THEN slots - used ELSE 0                   \* get_free_upload_slots
 
-CodeGrants == IF GrantAll THEN Prioritized ELSE SubSeq(Prioritized, 1, Min(FreeSlots, Len(Prioritized)))
+\* uploads[:free_upload_slots], then `if upload._transfer_task and not ...done(): continue` (571-575)
+CodeGrants == SelectSeq(IF GrantAll THEN Prioritized ELSE SubSeq(Prioritized, 1, Min(FreeSlots, Len(Prioritized))),
+                        LAMBDA u : ~tail[u])
+
+\* manage_user_tracking (504-523): users with an unfinished transfer are (kept) watched, users whose transfers
+\* are all finished are not watched any more for their transfers (a friend stays watched as a friend).
+LastOf(o) == LET idx == {i \in DOMAIN order : Owner(order[i]) = o}
+             IN order[CHOOSE i \in idx : \A j \in idx : j <= i]
+WatchNeeded(o) == IF TrackPerUser THEN Unfinished(o)
+                  ELSE st[LastOf(o)] \in {"QUEUED", "INITIALIZING", "UPLOADING", "PAUSED"}   \* broken variant
+Dropped == {o \in Users : HasTransfers(o) /\ ~WatchNeeded(o) /\ ~friend[o] /\ watch[o] # "no"}
+WatchAfterCycle == [o \in Users |-> IF HasTransfers(o) /\ WatchNeeded(o) /\ watch[o] = "no" THEN "asked"
+                                     ELSE IF o \in Dropped THEN "no" ELSE watch[o]]
 
 \* the management task runs: BackgroundTask.runner loops into _management_job.  With an item in the
 \* queue nothing suspends between queue.get() and the final sleep (manage_user_tracking only enqueues
@@ -216,15 +298,19 @@ MgmtStep ==
             /\ ready' = Tail(ready) \o CodeGrants
             /\ grantLim' = IF NumTasks(Tail(ready) \o CodeGrants) = 0 THEN 0
                            ELSE IF CodeGrants # <<>> THEN slots ELSE grantLim
+            \* the tracking requests are served behind the cycle; the decision above used the old knowledge
+            /\ watch' = WatchAfterCycle
+            /\ status' = [o \in Users |-> IF o \in Dropped THEN "unknown" ELSE status[o]]
+            /\ told' = ToldAfterForget(Dropped)
        ELSE /\ mpc' = "waiting" /\ ready' = Tail(ready)
-            /\ UNCHANGED <<mq, flags, grantLim>>
-  /\ UNCHANGED <<attrs, st, order>>
+            /\ UNCHANGED <<mq, flags, grantLim, watch, status, told>>
+  /\ UNCHANGED <<slots, friend, priv, st, order, tail, truth>>
 
 \* asyncio.sleep(>= 0.05 s) ends: the timer's handle goes to the tail of the ready queue
 TimerDue ==
   /\ mpc = "sleeping"
   /\ mpc' = "due" /\ ready' = Append(ready, 0)
-  /\ UNCHANGED <<attrs, st, order, mq, flags, grantLim>>
+  /\ UNCHANGED <<attrs, know, st, order, mq, flags, grantLim, tail>>
 
 \* first step of _initialize_upload (887): `await transfer.state.initialize()`.  The transfer's lock is
 \* free (state methods of an upload never hold it across a real wait while it is QUEUED), so the
@@ -238,7 +324,7 @@ TaskFirstStep(u) ==
               /\ grantLim' = GrantLimAfter(r)
               /\ Notify(r)
          ELSE /\ NoReq(r) /\ grantLim' = GrantLimAfter(r) /\ UNCHANGED st
-  /\ UNCHANGED <<attrs, order>>
+  /\ UNCHANGED <<attrs, know, order, tail>>
 
 \* --- next-state relation: one named disjunct per action, so that TLC's labels carry the arguments ------
 budgets == <<slotLeft, attrLeft, lifeLeft>>
@@ -249,7 +335,10 @@ SpendSlot == Spend(slotLeft) /\ UNCHANGED <<attrLeft, lifeLeft>>
 
 Cycle == MgmtStep /\ UNCHANGED budgets
 FirstStep(u) == TaskFirstStep(u) /\ UNCHANGED budgets
+TailEnd(u) == TailEnds(u) /\ UNCHANGED budgets
 LoopStep == Cycle \/ \E u \in Uploads : FirstStep(u)
+\* a task that is in flight comes to an end (its waits are all bounded by timeouts)
+TailStep == \E u \in Uploads : TailEnd(u)
 TimerStep == TimerDue /\ UNCHANGED budgets
 
 ERequest(u) == st[u] = "NONE" /\ QueueRequest(u) /\ UNCHANGED budgets
@@ -263,6 +352,7 @@ EAbort(u) == Abort(u) /\ SpendLife
 EPause(u) == Pause(u) /\ SpendLife
 ESetSlots(n) == SetSlots(n) /\ SpendSlot
 EStatus(o, s) == StatusChange(o, s) /\ SpendAttr
+ETracked(o) == Tracked(o) /\ UNCHANGED budgets
 EFriend(o) == FriendChange(o) /\ SpendAttr
 EPriv(o) == PrivChange(o) /\ SpendAttr
 
@@ -270,13 +360,13 @@ Next ==
   \/ Cycle
   \/ TimerStep
   \/ \E u \in Uploads : \/ FirstStep(u) \/ ERequest(u) \/ ERequeue(u) \/ EResume(u) \/ ENegotiated(u) \/ EComplete(u)
-                         \/ EFail(u) \/ EBackToQueue(u) \/ EAbort(u) \/ EPause(u)
+                         \/ EFail(u) \/ EBackToQueue(u) \/ EAbort(u) \/ EPause(u) \/ TailEnd(u)
   \/ \E n \in 0..MaxSlots : ESetSlots(n)
-  \/ \E o \in Users : EFriend(o) \/ EPriv(o) \/ \E s \in Statuses : EStatus(o, s)
+  \/ \E o \in Users : EFriend(o) \/ EPriv(o) \/ ETracked(o) \/ \E s \in Statuses : EStatus(o, s)
 
 Spec == Init /\ [][Next]_vars
 \* the event loop keeps running (ready handles are run, due timers fire); the environment owes nothing
-FairSpec == Spec /\ WF_vars(LoopStep) /\ WF_vars(TimerStep)
+FairSpec == Spec /\ WF_vars(LoopStep) /\ WF_vars(TimerStep) /\ WF_vars(TailStep)
 
 ----------------------------------------------------------------------------
 \* Properties (from the statement of C05, not from the code)
@@ -284,6 +374,8 @@ FairSpec == Spec /\ WF_vars(LoopStep) /\ WF_vars(TimerStep)
 TypeOK ==
   /\ slots \in 0..MaxSlots
   /\ status \in [Users -> Statuses] /\ friend \in [Users -> BOOLEAN] /\ priv \in [Users -> BOOLEAN]
+  /\ truth \in [Users -> Statuses] /\ told \in [Users -> Statuses] /\ watch \in [Users -> {"no", "asked", "yes"}]
+  /\ tail \in [Uploads -> BOOLEAN]
   /\ st \in [Uploads -> States]
   /\ mq \in 0..1 /\ mpc \in {"waiting", "sleeping", "due"} /\ flags \subseteq {"transfer"}
   /\ Len(ready) <= Cardinality(Uploads) + 1
@@ -302,18 +394,19 @@ StartRespectsLimit ==
 
 OnePerUser == \A o \in Users : Cardinality({u \in ActiveSet(st) : Owner(u) = o}) <= 1
 
-\* offline users never get a slot; and nothing starts that was not handed a slot
+\* offline users (going by what the server told, see `told`) never get a slot; and nothing starts that was
+\* not handed a slot
 NeverOffline ==
-  [][/\ \A u \in Granted : status[Owner(u)] # "offline"
+  [][/\ \A u \in Granted : told[Owner(u)] # "offline"
      /\ \A u \in Starts : TaskCount(ready, u) > 0]_vars
 
 \* privileged > friend > online/away > unknown; ties are unconstrained
-Rank(o) == IF priv[o] THEN 3 ELSE IF friend[o] THEN 2 ELSE IF status[o] \in {"online", "away"} THEN 1 ELSE 0
+Rank(o) == IF priv[o] THEN 3 ELSE IF friend[o] THEN 2 ELSE IF told[o] \in {"online", "away"} THEN 1 ELSE 0
 
 \* a queued upload whose user may be given a slot
 Eligible(v) ==
   /\ st[v] = "QUEUED"
-  /\ status[Owner(v)] # "offline"
+  /\ told[Owner(v)] # "offline"
   /\ \A w \in Uploads : Owner(w) = Owner(v) => st[w] \notin Active /\ TaskCount(ready, w) = 0
 
 PriorityHolds ==
@@ -338,5 +431,9 @@ NoDoubleTask == \A u \in Uploads : TaskCount(ready, u) <= 1
 TaskOnlyQueued == \A u \in Uploads : TaskCount(ready, u) > 0 => st[u] = "QUEUED"
 OneTaskPerUser == \A u, w \in Uploads : (u # w /\ Owner(u) = Owner(w)) => ~(TaskCount(ready, u) > 0 /\ TaskCount(ready, w) > 0)
 \* a cycle leaves no startable upload behind
-CycleFillsSlots == [][(mq = 1 /\ mq' = 0) => \A v \in Uploads : ~(Startable(v))']_vars
+\* (unless a task still in flight stood in the way)
+CycleFillsSlots == [][(mq = 1 /\ mq' = 0 /\ \A u \in Uploads : ~tail[u]) => \A v \in Uploads : ~(Startable(v))']_vars
+\* what the client knows is what the statement goes by: nothing is forgotten while it matters
+KnowledgeKept == \A o \in Users : Unfinished(o) => status[o] = told[o]
+NoTaskWhileInFlight == \A u \in Uploads : ~(tail[u] /\ TaskCount(ready, u) > 0)
 =============================================================================
